@@ -21,6 +21,7 @@ class Ctx:
         self.kind = {}      # id -> ('base',) | ('sqrt', El) | ('inv', El) | ('fn', name, (El,...))
         self.bykey = {}
         self.hyps = {}      # atom id -> (power k, El) : atom^k rewrites to El
+        self.trig = {}      # cos-atom id -> (2, 1 - sin^2): the defining relation of a sin/cos pair (never cleared)
         self.assumed = []   # side conditions introduced (strings)
 
     def atom(self, name, kind=('base',)):
@@ -156,9 +157,10 @@ class El:
     def has_defined(a):
         K = CTX.kind
         H = CTX.hyps
+        T = CTX.trig
         for m in a.t:
             for v, e in m:
-                if K[v][0] in ('sqrt', 'inv') or v in H:
+                if K[v][0] in ('sqrt', 'inv') or v in H or (e >= 2 and v in T):
                     return True
         return False
 
@@ -176,7 +178,7 @@ class El:
         K = CTX.kind
         for _ in range(60):
             changed = False
-            if CTX.hyps:
+            if CTX.hyps or CTX.trig:
                 a2 = apply_hyps(a)
                 if a2 is not a:
                     a = a2
@@ -259,12 +261,13 @@ def show(a, limit=14):
 def apply_hyps(a):
     """rewrite atom^k -> poly for the named hypotheses (each with a private leading atom)"""
     H = CTX.hyps
+    T = CTX.trig
     for _ in range(200):
         hit = False
         out = {}
         for m, c in a.t.items():
             for idx, (v, e) in enumerate(m):
-                h = H.get(v)
+                h = H.get(v) or T.get(v)
                 if h is not None and e >= h[0]:
                     rest = m[:idx] + (((v, e - h[0]),) if e > h[0] else ()) + m[idx + 1:]
                     for m2, c2 in h[1].t.items():
@@ -487,9 +490,79 @@ def substitute(e, mapping):
     return out
 
 
+TRIG_MAXMULT = 4
+
+
+def _raw_fn(name, args):
+    k = ('fn', name, tuple(a.key() for a in args))
+    if k not in CTX.bykey:
+        CTX.bykey[k] = CTX.atom('%s(%s)' % (name, ', '.join(show(a, 6) for a in args)), ('fn', name, args))
+    return CTX.bykey[k]
+
+
+def _trig_pair(L):
+    """(sin L, cos L) for a one-term angle with positive coefficient: a pair of atoms tied by cos^2 = 1 - sin^2"""
+    si = _raw_fn('sin', (L,))
+    ci = _raw_fn('cos', (L,))
+    if ci not in CTX.trig:
+        CTX.trig[ci] = (2, ONE - El.a(si, 2))
+    return El.a(si), El.a(ci)
+
+
+def sincos(L):
+    """Normal form of (sin L, cos L).  The angle is split into its monomials by the addition theorems, small
+    integer multiples are expanded, odd/even symmetry fixes the sign of the coefficient, and sin/cos of
+    acos / asin / atan2 are written algebraically; what remains are atom pairs (sin u, cos u) with cos u^2 -> 1 - sin u^2.
+    Polynomials in such pairs have a unique normal form, so two trigonometric expressions that agree by these
+    identities normalise to the same element."""
+    L = _el(L)
+    L = L.norm() if L.has_defined() else L
+    if L.zero():
+        return ZERO, ONE
+    terms = sorted(L.t.items(), key=lambda mc: _okey(mc[0]))
+    if len(terms) > 1:
+        m0, c0 = terms[0]
+        first = El({m0: c0})
+        s1, c1 = sincos(first)
+        s2, c2 = sincos(L - first)
+        return s1 * c2 + c1 * s2, c1 * c2 - s1 * s2
+    (m, c), = terms
+    if c < 0:
+        s_, c_ = sincos(-L)
+        return -s_, c_
+    if m and c != 1:
+        # small rational multiple p/q of the unit angle m/q
+        p_, q_ = c.numerator, c.denominator
+        if 2 <= p_ <= TRIG_MAXMULT and q_ <= 8:
+            U = El({m: Fr(1, q_)})
+            su, cu = sincos(U)
+            s_, c_ = su, cu
+            for _ in range(p_ - 1):
+                s_, c_ = s_ * cu + c_ * su, c_ * cu - s_ * su
+            return s_.norm(), c_.norm()
+    if c == 1 and len(m) == 1 and m[0][1] == 1:
+        kd = CTX.kind[m[0][0]]
+        if kd[0] == 'fn' and kd[1] == 'acos':
+            x = kd[2][0]
+            return sqrt(ONE - x * x), x
+        if kd[0] == 'fn' and kd[1] == 'asin':
+            x = kd[2][0]
+            return x, sqrt(ONE - x * x)
+        if kd[0] == 'fn' and kd[1] == 'atan2':
+            y, x = kd[2]
+            n2 = x * x + y * y
+            if not n2.zero():
+                r = inv(sqrt(n2))
+                return y * r, x * r
+    return _trig_pair(L)
+
+
 def fn(name, *args):
     """application of an uninterpreted function symbol, keyed by the canonical form of its arguments"""
     args = tuple((a.norm() if a.has_defined() else a) for a in map(_el, args))
+    if name in ('sin', 'cos') and len(args) == 1:
+        s_, c_ = sincos(args[0])
+        return s_ if name == 'sin' else c_
     k = ('fn', name, tuple(a.key() for a in args))
     if k not in CTX.bykey:
         CTX.bykey[k] = CTX.atom('%s(%s)' % (name, ', '.join(show(a, 6) for a in args)), ('fn', name, args))
